@@ -20,8 +20,8 @@
 #include <algorithm>
 
 namespace vs {
-enum St { RUNNABLE, WANT_LOCK, COND_WAIT, WANT_JOIN, FINISHED };
-struct Th { pthread_t real; St st; void *obj; void *obj2; sem_t gate; void*(*fn)(void*); void *arg; int id; };
+enum St { RUNNABLE, WANT_LOCK, COND_WAIT, WANT_JOIN, FINISHED, SLEEP };
+struct Th { pthread_t real; St st; void *obj; void *obj2; sem_t gate; void*(*fn)(void*); void *arg; int id; long wake; };
 struct Point { int nenabled; int chosen; int running; char kind; };
 static std::vector<Th*> th;
 static bool active = false;
@@ -33,8 +33,10 @@ static std::vector<Point> points;
 static std::vector<std::string> trace;              // operation trace (thread:op), for model conformance
 static bool keep_trace = false;
 static int current = -1; static int outfd = -1; static long nsteps = 0; static long max_steps = 20000;
+static std::vector<int> follow;                     // follow mode: thread id that performs block i (from a model trace); empty = off
 static bool choose_waiter = false;                  // notify_one picks any waiter (extra choice point) instead of FIFO
 static int max_conc_model = 0;
+static long vclock = 0;                             // virtual time: advances only when no thread is enabled and some thread sleeps (model latencies)
 
 template<typename F> static F real(const char *name){ return (F) dlsym(RTLD_NEXT, name); }
 static int (*r_create)(pthread_t*, const pthread_attr_t*, void*(*)(void*), void*);
@@ -49,6 +51,7 @@ static bool enabled(Th *t){
         case WANT_LOCK: return owner.find(t->obj) == owner.end();
         case COND_WAIT: return false;
         case WANT_JOIN: return th[(size_t)(intptr_t) t->obj]->st == FINISHED;
+        case SLEEP: return vclock >= t->wake;
         default: return false;
     }
 }
@@ -70,12 +73,22 @@ static void schedule(char kind, const char *opname){
     std::vector<int> en; bool cur_en = (current >= 0 && enabled(th[current]));
     if (cur_en) en.push_back(current);
     { int n = (int) th.size(); for(int k=1;k<=n;k++){ int id = ((current < 0 ? 0 : current) + k) % n; if (id != current && enabled(th[id])) en.push_back(id); } }
+    if (en.empty()){ // nobody can run: let the virtual clock jump to the earliest wake-up of a sleeping thread
+        long mw = -1; for(auto t : th) if (t->st == SLEEP && (mw < 0 || t->wake < mw)) mw = t->wake;
+        if (mw >= 0){ vclock = std::max(vclock, mw); int n = (int) th.size(); for(int k=1;k<=n;k++){ int id = ((current < 0 ? 0 : current) + k) % n; if (enabled(th[id])) en.push_back(id); } cur_en = false; }
+    }
     if (en.empty()){
         bool all_done = true; for(auto t : th) if (t->st != FINISHED) all_done = false;
         if (all_done) return;
         finish_report("DEADLOCK", 3);
     }
-    int c = (en.size() > 1) ? choose((int) en.size(), kind, cur_en ? 1 : 0) : 0;
+    int c = 0;
+    if (!follow.empty() && nsteps < (long) follow.size()){
+        // block number nsteps (0-based; block 0 is the start of main) must be run by the thread the model trace names
+        int want = follow[(size_t) nsteps]; c = -1; for(size_t q=0;q<en.size();q++) if (en[q] == want) c = (int) q;
+        if (c < 0) finish_report("MODEL-DIVERGED", 5);
+        Point p; p.nenabled = (int) en.size(); p.chosen = c; p.running = cur_en ? 1 : 0; p.kind = kind; points.push_back(p);
+    }else c = (en.size() > 1) ? choose((int) en.size(), kind, cur_en ? 1 : 0) : 0;
     int next = en[c], me = self_id; current = next;
     if (next != me){ sem_post(&th[next]->gate); if (th[me]->st != FINISHED) sem_wait(&th[me]->gate); }
 }
@@ -87,6 +100,13 @@ static void *trampoline(void *p){
 }
 // explicit choice point for the harness (e.g. inside the model callback: "any latency")
 static void yield(const char *opname = "yield"){ if (active && self_id >= 0) schedule('y', opname); }
+// the calling thread is busy for L ticks of virtual time (a model latency): it is not enabled until the clock reaches its wake-up time,
+// and the clock only advances when nothing else can run - "this call takes longer than anything the other threads can do meanwhile"
+static void sleep_ticks(long L, const char *opname = "yield"){
+    if (!active || self_id < 0) return;
+    if (L <= 0){ schedule('y', opname); return; }
+    Th *me = th[self_id]; me->st = SLEEP; me->wake = vclock + L; schedule('z', opname); me->st = RUNNABLE;
+}
 static void begin_main(){
     init_real(); Th *m = new Th(); m->st = RUNNABLE; m->id = 0; m->real = pthread_self(); sem_init(&m->gate, 0, 0); th.push_back(m); self_id = 0; current = 0; active = true;
 }
@@ -146,9 +166,9 @@ namespace vx {
 struct Result { std::string status; std::vector<vs::Point> pts; std::vector<std::string> trace; std::string obs; vf::Outcome out; };
 
 // runs body() under the scheduler in a forked child with the given choice prefix
-static Result run(const std::vector<int> &prefix, const std::function<std::string()> &body, double timeout = 60.0, bool want_trace = false){
+static Result run(const std::vector<int> &prefix, const std::function<std::string()> &body, double timeout = 60.0, bool want_trace = false, const std::vector<int> &follow = std::vector<int>()){
     vf::Outcome o = vf::run_child([&](int fd){
-        vs::outfd = fd; vs::prefix = prefix; vs::keep_trace = want_trace; vs::begin_main();
+        vs::outfd = fd; vs::prefix = prefix; vs::keep_trace = want_trace; vs::follow = follow; vs::begin_main();
         std::string obs = body();
         vs::end_main();
         std::ostringstream s; s << "OK\n" << vs::points.size() << "\n"; for(auto &p : vs::points) s << p.nenabled << " " << p.chosen << " " << p.running << " " << p.kind << "\n";
